@@ -140,8 +140,9 @@ CHECKS['C13'] = dict(
          'direction is the monotonic sense, a single row gives no spacing; the assignment logic (index type or not, user-supplied '
          'min/max/spacing/direction kept, units copied, refusal in the high-compatibility mode) over all flag combinations.'
          ' A 2-D first channel without index type gives INDEX-MAX = number of rows; user-supplied values include 0.',
-    note='The near-uniform float tolerance test is outside the claim: the stub returns an arbitrary boolean for it and nothing is asserted '
-         'about the spacing in that branch; float indices / NaN are outside. F9 (values of the first write persist) is a recorded known finding.')
+    note='The near-uniform tolerance is decided in exact rationals except in the band |1 - d/median| in [0.031, 0.032] (float rounding may decide '
+         'either way there: arbitrary outcome, nothing asserted). Float indices: integer-valued finite values of magnitude <= 2**50 and NaN only; '
+         'non-integer floats, larger magnitudes and infinities are outside. F9 (values of the first write persist) is a recorded known finding.')
 CHECKS['C14'] = dict(
     text='Per state carrier: memoised functions are found by introspection and decided by two obligations (only immutable values reach a '
          'memo - guards on every encode path; equal cache keys give equal uncached results over a value domain with 1 / 1.0 / True '
@@ -213,6 +214,11 @@ _R4 = {
     'C20': ' A rejected first add_origin (explicit or default reference) leaves neither references nor header state behind; completeness after rejected calls.',
 }
 for _k, _v in _R4.items():
+    CHECKS[_k]['text'] = CHECKS[_k]['text'] + _v
+
+# obligations added after the fifth round of seeded changes
+_R5 = {'C01': " Round 5: the real BufferedOutput feeding the real ByteWriter over a file model (no file / prior file of any length; 'wb', 'ab', 'r+b' + seek, os.path.exists answered by the model): the file is label + whole records after every close and exactly label + records at the end.", 'C02': ' Round 5: buffer + real ByteWriter over the file model (no byte lost, duplicated or reordered on the way to the file).', 'C03': " Round 5: cast dtypes given with an explicit byte order (np.dtype('>f4')): slots are the cast values, most significant byte first.", 'C04': ' Round 5: the IDENT / OBNAME encoders (one-byte length and copy number for every length / copy 0..255, refusal beyond) are registered here as well.', 'C07': ' Round 5: OBNAME / OBJREF encoders over all origins, copies, name lengths (copy number one byte up to 255) registered here.', 'C08': ' Round 5: cast dtypes with an explicit byte order (slot bytes most significant first).', 'C09': ' Round 5: every add_* method of LogicalFile as the call before / after add_origin: FILE-HEADER, then the ORIGIN set, then the rest.', 'C10': ' Round 5: real BufferedOutput + real ByteWriter over the file model (prior file longer than the output, no file; truncation, append position, whole records after every close).', 'C11': ' Round 5: row counts up to 10**6 (symbolic; block-wise field fills modelled by the stub).', 'C12': ' Round 5: copy-number obligations (same name, origins equal at write time but different at creation) registered here: a write that returns has unique object identities.', 'C13': " Round 5: float64 index of integer-valued numbers or NaN (numpy NaN semantics in the value stub; tolerance in exact rationals): SPACING only for uniformly spaced rows, never NaN; signed narrow integer indices through numpy's promote_types.", 'C14': ' Round 5: naive date-times differing only in fold under a TZ rule with a clock set-back (F27 found, fixed); rejected calls as process history (the C20 obligations).', 'C16': ' Round 5: the segment contract (provenance of body ranges, successor flag) and the K2 loop step are registered here - payloads on their way through the segmenter; buffer + real ByteWriter over the file model.', 'C17': ' Round 5: a float index with a missing (NaN) sample is refused in the mode (F28 found, fixed).', 'C18': ' Round 5: two logical files whose origins share one ORIGIN set name (default or named), header identifiers different or equal: refused, never cross-contaminated.', 'C20': ' Round 5: first add_origin rejected for any of 9 reasons (file set number of a wrong type, unknown keyword, ...), valid origin under the same name afterwards: one origin, copy 0.'}
+for _k, _v in _R5.items():
     CHECKS[_k]['text'] = CHECKS[_k]['text'] + _v
 
 NOT_APPLICABLE = []   # every property is decided by this technique; parts out of its reach are listed per check (level_note, DESIGN 4)
